@@ -45,8 +45,9 @@ def main():
                 cmd = c
                 break
         if not cmd:
-            print("no demo command found in README")
-            return 2
+            # README without a build line: the standard one from the task description
+            extra = " -mavx512f -D__AVX512__" if prop in ("C11", "C14") else ""
+            cmd = "g++ -std=c++17 -O2 -mavx2%s -fopenmp -I%s/src demo.cpp %s/src/*.cpp -lgmp -lgmpxx -o demo && ./demo" % (extra, agent_wt.rstrip("/"), agent_wt.rstrip("/"))
         # rewrite the agent's paths to the scratch worktree and the kept copy
         for f in os.listdir(dest):
             if f.endswith((".cpp", ".py", ".sh", ".hpp")) and f != "gl64_host.hpp":
